@@ -288,3 +288,9 @@ def drop_is_flagged(fn, bb):
         if t["k"] == "switch" and t["d"]["k"] in ("copy", "move") and fn.locals[t["d"]["p"]["l"]]["ty"] == "bool" and not fn.locals[t["d"]["p"]["l"]].get("name"):
             return True
     return False
+
+
+def run_thorough(ctx):
+    # whole-program: raw descriptor creation / duplication only inside owning wrappers
+    deep_census(ctx, "R07.5", ["dup", "dup3", "open", "openat", "open64", "socket", "creat", "pipe", "pipe2"],
+                {"pipe": ["posix::pipe"], "open64": ["std::sys::fs::unix::File::open_c", "std::sys::fs::unix::File::open_c::{closure#0}"]})
